@@ -205,6 +205,56 @@ theorem le_partial_order :
     · exact ⟨by omega, fun g hg => h2.2 (h1.2 hg)⟩
     · exact ⟨by omega, fun g hg => h1.2 (h2.2 hg)⟩
 
+/-! ## the listing order of an extent never matters (any size) -/
+
+/-- `a'` is `a` with its extent listed in another order: `extent_i` is a permutation (repetitions, if any, are
+    kept), context hash and monotonicity are the same.  (Every derivation route lists the extent in its own order:
+    `extension_i` ascending, object-wise CbO "generators first", `from_objects(…, is_extent=True)`, `read_json`
+    and the constructor as given.) -/
+structure Relisted (a a' : Concept) : Prop where
+  perm : a.extentI.Perm a'.extentI
+  hash : a.contextHash = a'.contextHash
+  mono : a.isMonotone = a'.isMonotone
+
+/-- `<=`, `<`, `==`, `!=` and the value handed to `hash` depend on the two extents only as SETS: re-listing either
+    extent in any order — whatever its length, nothing else assumed — changes no answer (value or exception)
+    and no hash.  So no threshold on the number of objects and no ratio of supports separates two regimes. -/
+theorem listing_invariant (a a' b b' : Concept) (ha : Relisted a a') (hb : Relisted b b') :
+    Concept.le a b = Concept.le a' b' ∧ Concept.lt a b = Concept.lt a' b' ∧
+    Concept.eq a b = Concept.eq a' b' ∧ Concept.ne a b = Concept.ne a' b' ∧
+    Concept.hashKey a = Concept.hashKey a' := by
+  obtain ⟨pa, hha, hma⟩ := ha
+  obtain ⟨pb, hhb, hmb⟩ := hb
+  have la := pa.length_eq
+  have lb := pb.length_eq
+  have hle : Concept.le a b = Concept.le a' b' := by
+    unfold Concept.le Concept.support
+    rw [← hha, ← hhb, ← hma, ← hmb]
+    cases a.isMonotone <;>
+      simp only [Bool.not_false, Bool.not_true, Bool.false_eq_true, ↓reduceIte, ← la, ← lb,
+        memLoop_perm pb pa, memLoop_perm pa pb]
+  have heq : Concept.eq a b = Concept.eq a' b' := by
+    unfold Concept.eq Concept.support
+    rw [← hha, ← hhb, ← hma, ← hmb, ← la, ← lb, setEq_perm pa pb]
+  refine ⟨hle, ?_, heq, ?_, sortedNats_eq_of_perm pa⟩
+  · unfold Concept.lt Concept.support
+    rw [← hha, ← hhb, ← hma, ← hmb, ← la, ← lb, hle]
+  · unfold Concept.ne
+    rw [heq]
+
+/-- in particular a concept and any re-listing of it are equal, compare `<=` both ways, never `<`, and hash equally -/
+theorem relisted_equal (a a' : Concept) (h : Relisted a a') :
+    Concept.eq a a' = .ok true ∧ Concept.le a a' = .ok true ∧ Concept.le a' a = .ok true ∧
+    Concept.lt a a' = .ok false ∧ Concept.hashKey a = Concept.hashKey a' := by
+  have refl : Relisted a a := ⟨List.Perm.refl _, rfl, rfl⟩
+  have h1 := listing_invariant a a a a' refl h
+  have h2 := listing_invariant a a' a a h refl
+  have hle : Concept.le a a = .ok true := le_partial_order.1 a
+  have heq : Concept.eq a a = .ok true := le_partial_order.2.1 a a hle hle
+  have hlt : Concept.lt a a = .ok false := by
+    unfold Concept.lt; simp
+  exact ⟨h1.2.2.1 ▸ heq, h1.1 ▸ hle, h2.1 ▸ hle, h1.2.1 ▸ hlt, (listing_invariant a a' a a h refl).2.2.2.2⟩
+
 /-! ## refused comparisons -/
 
 /-- concepts of different contexts: `==`, `!=`, `<=`, `<` all raise `UnmatchedContextError`
@@ -657,6 +707,57 @@ theorem interval_from_objects_closure (cols : List Interval.Col) (objNames : Lis
     | nil => exact absurd rfl hc
     | cons c cs => simp [Interval.intentionI, Interval.inside]
 
+/-- the listing order of an extent never matters for pattern concepts either (any size): `<=`, `<`, `==`, `!=` and the
+    hash key are invariant under any permutation of either extent listing -/
+theorem listing_invariant (a a' b b' : PConcept D)
+    (pa : a.extentI.Perm a'.extentI) (ha : a.contextHash = a'.contextHash)
+    (pb : b.extentI.Perm b'.extentI) (hb : b.contextHash = b'.contextHash) :
+    PConcept.le a b = PConcept.le a' b' ∧ PConcept.lt a b = PConcept.lt a' b' ∧
+    PConcept.eq a b = PConcept.eq a' b' ∧ PConcept.ne a b = PConcept.ne a' b' ∧
+    PConcept.hashKey a = PConcept.hashKey a' := by
+  have la := pa.length_eq
+  have lb := pb.length_eq
+  have hle : PConcept.le a b = PConcept.le a' b' := by
+    unfold PConcept.le PConcept.support
+    rw [← ha, ← hb, ← la, ← lb, memLoop_perm pb pa]
+  have heq : PConcept.eq a b = PConcept.eq a' b' := by
+    unfold PConcept.eq PConcept.support
+    rw [← ha, ← hb, ← la, ← lb, hle]
+  refine ⟨hle, ?_, heq, ?_, ?_⟩
+  · unfold PConcept.lt PConcept.support
+    rw [← ha, ← hb, ← la, ← lb, hle]
+  · unfold PConcept.ne
+    rw [heq]
+  · unfold PConcept.hashKey
+    rw [sortedNats_eq_of_perm pa, ha]
+
+/-- (history) `PatternConcept.from_objects` stamps the hash the many-valued context has AT THE TIME OF THE CALL
+    (`h` = `K.hash_fixed()` then, whatever route changed the content in between — a setter of the context, the `data`
+    setter of a contained pattern structure, an edit of a list a getter handed out): concepts derived under
+    different hashes refuse `==`, `<=`, `<`; concepts derived under the same hash are ordered by extent inclusion. -/
+theorem from_objects_context_identity (int int' : List Nat → D) (ext ext' : D → List Nat)
+    (names names' : List String) (h h' : Int) (objs objs' : ObjArg) (ie ie' : Bool) (c c' : PConcept D)
+    (hc : PConcept.fromObjects int ext names objs h ie false = .ok c)
+    (hc' : PConcept.fromObjects int' ext' names' objs' h' ie' false = .ok c') :
+    (h ≠ h' → PConcept.eq c c' = .error .NotImplementedError ∧ PConcept.le c c' = .error .NotImplementedError ∧
+               PConcept.lt c c' = .error .NotImplementedError) ∧
+    (h = h' → c.extentI.Nodup → c'.extentI.Nodup →
+      PConcept.le c c' = .ok (decide (c.extentI ⊆ c'.extentI))) := by
+  have field : ∀ (int : List Nat → D) (ext : D → List Nat) (names : List String) (o : ObjArg) (h : Int) (ie : Bool)
+      (c : PConcept D), PConcept.fromObjects int ext names o h ie false = .ok c → c.contextHash = some h := by
+    intro int ext names o h ie c hc
+    simp only [PConcept.fromObjects, Bool.false_eq_true, ↓reduceIte, bind, Except.bind, pure, Except.pure] at hc
+    repeat' split at hc
+    all_goals first | (cases hc; rfl) | cases hc
+  have e1 := field _ _ _ _ _ _ _ hc
+  have e2 := field _ _ _ _ _ _ _ hc'
+  constructor
+  · intro hne
+    have := cross_context_refused c c' (by rw [e1, e2]; intro e; exact hne (Option.some.inj e))
+    exact ⟨this.1, this.2.2.1, this.2.2.2⟩
+  · intro heq nd nd'
+    exact le_iff_extent_subset c c' ⟨by rw [e1, e2, heq], nd, nd'⟩
+
 end Pattern
 
 /-! ## non-vacuity: the hypotheses are met by concrete, non-trivial inputs -/
@@ -701,5 +802,23 @@ example : (∀ g ∈ [1, 0], g < ["x", "y", "z"].length) ∧
 example : Pattern.Comparable (⟨[2, 0], ["g2", "g0"], (), some 3⟩ : PConcept Unit) ⟨[0, 1, 2], ["g0", "g1", "g2"], (), some 3⟩
     ∧ PConcept.lt (⟨[2, 0], ["g2", "g0"], (), some 3⟩ : PConcept Unit) ⟨[0, 1, 2], ["g0", "g1", "g2"], (), some 3⟩ = .ok true := by
   refine ⟨⟨rfl, by decide, by decide⟩, by decide⟩
+
+/-- a 65-object extent listed descending / rotated against the ascending listing, and a one-object concept below it:
+    the hypotheses of `listing_invariant` are met well beyond any small scope, and the answers are the non-trivial ones -/
+private def exBig : Concept := ⟨List.range 65, [], [], [], some 7, false⟩
+private def exBigDesc : Concept := ⟨(List.range 65).reverse, [], [], [], some 7, false⟩
+private def exBigRot : Concept := ⟨(List.range 65).rotateLeft 17, [], [], [], some 7, false⟩
+private def exOne : Concept := ⟨[40], [], [], [], some 7, false⟩
+
+example : Relisted exBig exBigDesc ∧ Relisted exBig exBigRot ∧ Relisted exOne exOne ∧
+    Concept.le exOne exBigDesc = .ok true ∧ Concept.lt exOne exBigRot = .ok true ∧
+    Concept.le exBigRot exOne = .ok false ∧ Concept.eq exBigDesc exBigRot = .ok true ∧
+    Concept.hashKey exBigDesc = Concept.hashKey exBigRot := by
+  refine ⟨⟨(List.reverse_perm _).symm, rfl, rfl⟩, ⟨by decide, rfl, rfl⟩,
+    ⟨List.Perm.refl _, rfl, rfl⟩, by decide, by decide, by decide, by decide, by decide⟩
+
+example : (⟨[2, 0, 1], [], (), some 3⟩ : PConcept Unit).extentI.Perm [0, 1, 2] ∧
+    PConcept.eq (⟨[2, 0, 1], [], (), some 3⟩ : PConcept Unit) ⟨[0, 1, 2], [], (), some 3⟩ = .ok true := by
+  refine ⟨by decide, by decide⟩
 
 end Fca.C08
